@@ -143,6 +143,30 @@ claim(
     "DESIGN.md section 6 C16", MACHINE,
 )
 
+claim(
+    "C13",
+    "PARTIAL. Theorems over the ownership state machine (names -> objects -> kernel-allocated arrays, reference counting), for "
+    "every history: the invariant (no array freed twice, none freed while a name reaches its object, no unnamed live object) is "
+    "preserved (`inv_run`), every array ever allocated is either owned by a named object or has been freed exactly once "
+    "(`freed_exactly_once`), a call never frees arrays of a tensor that is still named (`step_keeps_named`). Correspondence: the same "
+    "histories (all up to length 3/4 + random long ones) run under an LD_PRELOAD malloc/free interposer; the set of kernel arrays "
+    "freed at each step, double frees and leaks are compared with the model.",
+    "Lean 4 invariant proof over all histories of the ownership model + interposer-observed frees per step on the real runtime",
+    "DESIGN.md section 6 C13",
+    "CPython reference counting, WeakKeyDictionary, cffi ffi.gc and glibc are modelled, not verified; the property is decided for the model and observed for the runtime.",
+)
+claim(
+    "C14",
+    "PARTIAL. Theorems over the interleaving model (atomic steps: cache lookup, compile, insert, allocate+table insert, run, own), "
+    "for arbitrary compile/exec functions and every schedule: a finished call returned what it returns alone "
+    "(`interleaving_refines_sequential`), the cache only maps a key to its own kernel (`cache_memo_invariant`), table slots are "
+    "distinct, every fair schedule finishes. Runtime: N in {2,4,16} threads over cached/uncached problems and both back ends with "
+    "cache_clear() and a 1e-6 switch interval; results equal the sequential ones; recorded event traces conform to the model's step order.",
+    "Lean 4 refinement proof over all interleavings of the model + sampled real thread schedules compared with sequential results",
+    "DESIGN.md section 6 C14",
+    "Schedules on the real runtime are sampled, not enumerated; GIL atomicity and llvmlite/LLVM/cffi thread safety are assumptions of the model.",
+)
+
 ALL = [f"C{n:02d}" for n in range(1, 17)]
 for p in ALL:
     if p not in CHECKS:
